@@ -41,6 +41,15 @@ func TestGowpReplayC15(t *testing.T) {
 		if got := gowpTryEval(ir, "f() + 1"); got != "42" {
 			t.Fatalf("GOWP-REPLAY-FAIL after func f() int { return 41 } and the failing %q, f() + 1 is %s, want 42", b, got)
 		}
+		// a previous constant or variable of that name survives too
+		for _, prev := range []string{"const f = 7", "var f = 7"} {
+			ir3 := New()
+			gowpTryEval(ir3, prev)
+			gowpTryEval(ir3, b)
+			if got := gowpTryEval(ir3, "f + 1"); got != "8" {
+				t.Fatalf("GOWP-REPLAY-FAIL after %q and the failing %q, f + 1 is %s, want 8", prev, b, got)
+			}
+		}
 		// no previous declaration: the name stays undeclared, and can be declared afterwards
 		ir2 := New()
 		gowpTryEval(ir2, b)
